@@ -1,0 +1,20 @@
+//go:build verif
+
+// Contracts for package python/ndjson, read by /verif/govc (comment-only file; excluded from every build without the tag "verif").
+package ndjson
+
+// docs/reference/ndjson.md: a union is written without its tag ("simplified") only when the JSON kinds of its cases
+// are pairwise disjoint, because the reader then picks the case by the JSON type of the value. The decision loop
+// collects the kinds of the cases it has seen; each case adds its kinds to the collection, and a case whose kinds
+// overlap the collection switches to the tagged form, which is never switched back.
+//@ func typeConverter@getScalarConverter
+//@   property C02,C03
+//@   requires t != nil
+//@   iteration 0: kinds_of_a_case_are_added_to_the_collection: c.Type != nil ==> next(possibleTypes) == (possibleTypes | lastResult(ndjsoncommon.GetJsonDataType))
+//@   iteration 0: a_null_case_adds_nothing: c.Type == nil ==> next(possibleTypes) == possibleTypes
+//@   iteration 0: overlap_forces_the_tagged_form: c.Type != nil && (lastResult(ndjsoncommon.GetJsonDataType) & possibleTypes) != 0 ==> next(simplfied) == "False"
+//@   iteration 0: tagged_form_is_final: simplfied == "False" ==> next(simplfied) == "False"
+//@   invariant 0: simplfied == "True" || simplfied == "False"
+
+// Output may not depend on the iteration order of a Go map (C12): decided per `range` over a map.
+//@ map-order C12 package
